@@ -979,6 +979,15 @@ def r4_6(ctx):
     ctx.count('narrowing_emissions', n_casts)
 
 
+def r4_7(ctx):
+    """integer literals: the lexer decides "integer overflow" from errno == ERANGE after
+    strtoll, so errno is reset in front of every conversion (idioms.errno_protocol)"""
+    from ..idioms import errno_protocol
+    lx = ctx.prog.fn('yara_yylex', 'libyara/lexer.c')
+    ctx.require(lx is not None or ctx.fixture, 'yara_yylex not found')
+    errno_protocol(ctx, 'R4.7', [lx] if lx is not None else list(ctx.prog.fns()))
+
+
 def run(ctx):
     r4_1_2(ctx)
     ctx.floor('R4.1', 60)
@@ -997,3 +1006,5 @@ def run(ctx):
     ctx.floor('R4.5', 3)
     r4_6(ctx)
     ctx.floor('R4.6', 3)
+    r4_7(ctx)
+    ctx.floor('R4.7', 3)
